@@ -30,12 +30,20 @@ ELEMENTS = ['H', 'C', 'N', 'O', 'S', 'Se', 'X']
 EPS = 1e-6
 
 
-def force_field():
+FF_EDGES = {
+    'normal': {'RB': [('A1', 'A2'), ('A2', 'A3')], 'RN': [('A1', 'A3'), ('A2', 'A3')], 'S1': [('A1', 'A4')], 'S2': [('A2', 'A4')]},
+    # a second force field with the SAME block names but the bonded / non-bonded roles of A1-A2 exchanged
+    'swapped': {'RB': [('A1', 'A3'), ('A2', 'A3')], 'RN': [('A1', 'A2'), ('A2', 'A3')], 'S1': [('A1', 'A4')], 'S2': [('A2', 'A4')]},
+}
+
+
+def force_field(variant='normal'):
     """Blocks: RB has A1-A2 bonded; RN has A1 and A2 both bonded to A3 only (A1-A2 is a non-bond);
     single-atom blocks S1, S2 for 'other residue' cases."""
     from vermouth.forcefield import ForceField
     from vermouth.molecule import Block
-    ff = ForceField(name='c10ff')
+    ff = ForceField(name='c10ff_' + variant)
+    edges_of = FF_EDGES[variant]
 
     def block(name, atoms, edges):
         blk = Block(force_field=ff)
@@ -45,10 +53,10 @@ def force_field():
         for a, b in edges:
             blk.add_edge(a, b)
         ff.blocks[name] = blk
-    block('RB', ['A1', 'A2', 'A3'], [('A1', 'A2'), ('A2', 'A3')])
-    block('RN', ['A1', 'A2', 'A3'], [('A1', 'A3'), ('A2', 'A3')])
-    block('S1', ['A1', 'A4'], [('A1', 'A4')])
-    block('S2', ['A2', 'A4'], [('A2', 'A4')])
+    block('RB', ['A1', 'A2', 'A3'], edges_of['RB'])
+    block('RN', ['A1', 'A2', 'A3'], edges_of['RN'])
+    block('S1', ['A1', 'A4'], edges_of['S1'])
+    block('S2', ['A2', 'A4'], edges_of['S2'])
     return ff
 
 
@@ -85,13 +93,13 @@ def expected_bond(a, b, dist, fudge, mode, name_resolved, block_edges, block_ato
     return dist <= thr
 
 
-def run_make_bonds(molecule_specs, fudge, mode, pre_edges):
+def run_make_bonds(molecule_specs, fudge, mode, pre_edges, variant='normal'):
     """molecule_specs: list of lists of atom dicts (tag, element, atomname, resname, resid, chain, position).
     Returns (list of output molecules, tag -> (out molecule index, node))."""
     import numpy as np
     import vermouth
     from vermouth.processors.make_bonds import MakeBonds
-    system = vermouth.System(force_field=force_field())
+    system = vermouth.System(force_field=force_field(variant))
     for spec in molecule_specs:
         mol = vermouth.molecule.Molecule(force_field=system.force_field)
         for idx, atom in enumerate(spec):
@@ -108,10 +116,9 @@ def run_make_bonds(molecule_specs, fudge, mode, pre_edges):
     return system.molecules, log
 
 
-def evaluate(molecule_specs, fudge, mode, pre_edges, case, acc, nontrivial=True, sample=False):
+def evaluate(molecule_specs, fudge, mode, pre_edges, case, acc, nontrivial=True, sample=False, variant='normal'):
     import numpy as np
-    ff_edges = {'RB': {frozenset(('A1', 'A2')), frozenset(('A2', 'A3'))}, 'RN': {frozenset(('A1', 'A3')), frozenset(('A2', 'A3'))},
-                'S1': {frozenset(('A1', 'A4'))}, 'S2': {frozenset(('A2', 'A4'))}}
+    ff_edges = {name: {frozenset(e) for e in edges} for name, edges in FF_EDGES[variant].items()}
     ff_atoms = {'RB': {'A1', 'A2', 'A3'}, 'RN': {'A1', 'A2', 'A3'}, 'S1': {'A1', 'A4'}, 'S2': {'A2', 'A4'}}
     atoms = {}
     residues = {}
@@ -126,7 +133,7 @@ def evaluate(molecule_specs, fudge, mode, pre_edges, case, acc, nontrivial=True,
         names = [a['atomname'] for a in members]
         name_resolved[res] = res[3] in ff_atoms and len(set(names)) == len(names)
     try:
-        out, log = run_make_bonds(molecule_specs, fudge, mode, pre_edges)
+        out, log = run_make_bonds(molecule_specs, fudge, mode, pre_edges, variant)
     except Exception as err:   # pylint: disable=broad-except
         acc.case(outcome='exc')
         acc.violation('c10:exception', 'MakeBonds raised %r' % (err,), case)
@@ -248,10 +255,39 @@ def work(task):
                 specs = pair_specs(e1, e2, factor, relation, knowledge, fudge)
                 evaluate(specs, fudge, mode, [('a', 'b')] if pre else [], case, acc,
                          nontrivial=(mode != 'none'), sample=(acc.states % 7919 == 0))
+    elif kind == 'sequence':
+        for item in items:
+            sequence_case(item, acc)
     else:
         for item in items:
             system_case(item, acc)
     return acc
+
+
+# ----------------------------------------------------------------------------- sequences of calls
+
+def sequence_case(item, acc):
+    """Several MakeBonds calls in ONE process with force fields that define the same block names differently:
+    every call is judged on its own (no state may leak from one call to the next)."""
+    variants, knowledges, factor = item
+    for step, (variant, knowledge) in enumerate(zip(variants, knowledges)):
+        case = {'layer': 'sequence', 'variants': list(variants), 'knowledges': list(knowledges), 'factor': factor, 'step': step}
+        specs = pair_specs('C', 'C', factor, 'same-res', knowledge, 1.2)
+        before = len(acc.violations)
+        evaluate(specs, 1.2, 'both', [], case, acc, variant=variant)
+        if len(acc.violations) > before:
+            sig, desc, cs = acc.violations[-1]
+            acc.violations[-1] = ('c10:call-sequence:' + sig.split(':', 1)[1],
+                                  'call %d of the sequence %r: %s' % (step + 1, list(zip(variants, knowledges)), desc), cs)
+            return
+
+
+def sequence_items():
+    for length in (2, 3):
+        for variants in itertools.product(('normal', 'swapped'), repeat=length):
+            for knowledges in itertools.product(('bonded', 'non-bond'), repeat=length):
+                for factor in (1 - EPS, 1.5):
+                    yield variants, knowledges, factor
 
 
 # ----------------------------------------------------------------------------- system level
@@ -319,12 +355,19 @@ def run(ctx):
     for part in common.pmap(work, [('systems', chunk) for chunk in common.chunked(items, max(1, len(items) // 64))]):
         acc += part
     ctx.layer('systems', acc)
+    acc = Acc()
+    # every sequence in its own fresh worker process, so that each starts from a clean interpreter state
+    for part in common.pmap(work, [('sequence', [item]) for item in sequence_items()], fresh=True):
+        acc += part
+    ctx.layer('call-sequences', acc)
 
 
 def replay(case):
     common.bind_repo()
     acc = Acc()
-    if case['layer'] == 'pairs':
+    if case['layer'] == 'sequence':
+        sequence_case((tuple(case['variants']), tuple(case['knowledges']), case['factor']), acc)
+    elif case['layer'] == 'pairs':
         specs = pair_specs(case['e1'], case['e2'], case['factor'], case['relation'], case['knowledge'], case['fudge'])
         evaluate(specs, case['fudge'], case['mode'], [('a', 'b')] if case['pre'] else [], case, acc)
     else:
